@@ -4,7 +4,6 @@
 package model
 
 import (
-	"unicode/utf8"
 	"encoding/json"
 	"fmt"
 	"math/big"
@@ -12,6 +11,7 @@ import (
 	"sort"
 	"strconv"
 	"strings"
+	"unicode/utf8"
 
 	"verif/theory"
 )
